@@ -89,7 +89,6 @@ Qed.
 (* ---------------------------------------------------------------- what create_new writes *)
 Definition ec_flag (has_lot c : bool) : byte :=
   if has_lot then (if c then x24 else x04) else (if c then x20 else x00).
-Definition ec_magic (has_lot : bool) : bytes := if has_lot then magic_lot else magic_nolot.
 Definition ec_addr (pfx pk : bytes) : bytes := b58check H b58e (pfx ++ H160 pk).
 Definition ec_payload (flag : byte) (oe pp seed addr : bytes) : bytes :=
   let ah := firstn 4 (H addr) in
@@ -98,10 +97,7 @@ Definition ec_payload (flag : byte) (oe pp seed addr : bytes) : bytes :=
   let eh1 := aes_enc key (xor_be 16 (sl 0 16 seed) (sl 0 16 sh)) in
   let eh2 := aes_enc key (xor_be 16 (skipn 8 eh1 ++ skipn 16 seed) (sl 16 32 sh)) in
   pfx_ec ++ [flag] ++ ah ++ oe ++ sl 0 8 eh1 ++ eh2.
-(* the pass factor, as the decryption derives it from the passphrase and the owner entropy *)
-Definition pass_factor_of (has_lot : bool) (pw : P) (oe : bytes) : bytes :=
-  if has_lot then H (scrypt (utf8 pw) (sl 0 4 oe) 16384 8 8 32%nat ++ oe)
-  else scrypt (utf8 pw) oe 16384 8 8 32%nat.
+Notation pass_factor_of := (Bip38.pass_factor_of P utf8 scrypt H).
 
 Hypothesis b58_rt53 : forall x, length x = 53%nat -> b58d (b58e x) = Some x.
 
@@ -272,12 +268,13 @@ Proof.
   assert (Rs : 0 <= secret < 256 ^ 32).
   { pose proof (Z.mod_pos_bound (pfz * fbz) secp_order ltac:(unfold secp_order; lia)).
     assert (secp_order < 256 ^ 32) by (vm_compute; reflexivity). unfold secret. lia. }
+  subst secret fbz pfz.
   split; [|split].
   - unfold lib_key_decrypt. rewrite Ew at 1. unfold b58check at 1. fold cs.
     rewrite (b58_prot_ec _ Ld S0). cbn [negb]. rewrite Edec.
     unfold lib_check_address. rewrite Ip, Ic, Ih.
     rewrite of_be_be_bytes_small by exact Rs.
-    fold secret. rewrite Haddr, bytes_eqb_refl. reflexivity.
+    rewrite Haddr, bytes_eqb_refl. reflexivity.
   - rewrite Ea. exact Haddr.
   - exists i. repeat split; assumption.
 Qed.
